@@ -49,7 +49,7 @@ open_("D14", "C13", "VACUUM removes a row whose DELETE was rolled back (or was s
 open_("D29", "C13", "CREATE TABLE after a VACUUM panics (types/core.rs:341) and kills the worker", "O-res", "ddl_after_vacuum", "findings/D29-create-table-after-vacuum-panics.json")
 open_("D29b", "C13", "with two tables in the catalog, inserts after a VACUUM panic (types/core.rs:341)", "O-res", "vacuum_with_more_than_one_table", "findings/D29b-insert-after-vacuum-with-two-tables-panics.json")
 open_("D29c", "C13", "UPDATE, VACUUM, UPDATE leaves the table unreadable ('btree page not found: 0')", "O-res", "vacuum_of_updated_rows", "findings/D29c-update-vacuum-update-loses-table.json")
-open_("V1", "C13", "statements executed in a session after VACUUM aborted its transaction are visible to everyone at once; its ROLLBACK fails with 'Transaction not found'", "O-state", "session_open_across_vacuum", "findings/V1-statements-after-vacuum-aborted-the-session-are-visible-at-once.json")
+open_("V1", "C13", "statements executed in a session after VACUUM aborted its transaction are visible to everyone at once; its ROLLBACK fails with 'Transaction not found'", "O-state", "statement_in_session_after_vacuum_aborted_it", "findings/V1-statements-after-vacuum-aborted-the-session-are-visible-at-once.json")
 
 # ---- open findings: DDL (C15) ----
 open_("X1", "C15", "CREATE UNIQUE INDEX inside an open transaction makes the table unusable for every other transaction ('Table not found N') until it commits", "O-res", "create_index_inside_session", "findings/X1-create-index-in-session-breaks-table-for-others.json")
